@@ -48,6 +48,8 @@ def uniform_records(rng, D, n, ids="unique", coords=True):
         for pos, k in enumerate(sub):
             if k == multi_key:
                 vals = [R.value(rng, escaped=escaped) for _ in range(rng.randrange(2, 4))]
+                if not D["repeated"]:
+                    vals = R.with_empty_items(rng, vals, D)
             elif k in SINGLE:
                 vals = ["x"]  # set below
             else:
